@@ -6,21 +6,23 @@ Local Open Scope N_scope.
    produces, parsed from the schema alone by the reference semantics (RefMsg.v), give back the original
    message with identical field presence -- nothing dropped, nothing unset emitted, no value altered,
    unknown fields preserved.  Both sides are compared in canonical form (fields in schema order, absent =
-   not listed, map entries sorted).  Hypothesis [neg_zero_free] is the recorded finding G6. *)
+   not listed, map entries sorted).  (Until finding G6 was repaired in the code the statement carried the
+   hypothesis "no proto3 implicit float holds -0.0"; it is gone.) *)
 Theorem C05_reference_roundtrip : forall sc ty v b fuel,
   schema_ok sc = true -> value_ok sc (S (vdepth v)) ty v = true ->
-  unknowns_ok sc (S (vdepth v)) ty v = true -> neg_zero_free sc (S (vdepth v)) ty v = true ->
+  unknowns_ok sc (S (vdepth v)) ty v = true ->
   N.of_nat (gen_size sc (S (vdepth v)) ty v) < 2^31 ->
   gen_marshal sc ty v = MBytes b ->
   exists v', ref_decode sc (S (length b)) ty b = Some v' /\
              ((vdepth v < fuel)%nat -> (vdepth v' < fuel)%nat -> normalize sc fuel ty v' = normalize sc fuel ty v).
 Proof. exact reference_roundtrip. Qed.
 
-(* the recorded finding, in the model: a proto3 float field holding -0.0 is dropped *)
+(* a proto3 float field holding -0.0 is a value: written, and read back (finding G6, repaired) *)
 Definition nz_sc : schema := [ {| mproto2 := false; mfields := [ {| fnum := 1; fkind_ := FNum KFloat; fcard_ := CImplicit |} ] |} ].
-Example C05_neg_zero_refuted :
-  gen_marshal nz_sc 0 (GMsg [(1, GNum 2147483648)] []) = MBytes [] /\
-  normalize nz_sc 2 0 (GMsg [(1, GNum 2147483648)] []) <> normalize nz_sc 2 0 (GMsg [] []).
-Proof. split; [vm_compute; reflexivity | vm_compute; discriminate]. Qed.
+Example C05_neg_zero_kept :
+  gen_marshal nz_sc 0 (GMsg [(1, GNum 2147483648)] []) = MBytes [13; 0; 0; 0; 128] /\
+  ref_decode nz_sc 6 0 [13; 0; 0; 0; 128] = Some (GMsg [(1, GNum 2147483648)] []) /\
+  gen_marshal nz_sc 0 (GMsg [(1, GNum 0)] []) = MBytes [].
+Proof. vm_compute. repeat split. Qed.
 
 Print Assumptions C05_reference_roundtrip.
